@@ -4,7 +4,7 @@ from . import world2
 CLASSES = {"C15": ("emg", "fpcal", "fpdata"), "C16": ("data3d", "ft", "emg"),
            "C20": world2.ALL}
 BAD_KINDS = ["len+1", "len-1", "len+2", "len+7", "len-99", "shape:2d", "reassign", "kind:str", "kind:none", "kind:int", "kind:array",
-             "kind:other_item", "kind:sibling_track", "kind:sibling_track2", "kind:same_block", "kind:other_block"]
+             "kind:other_item", "kind:sibling_track", "kind:sibling_track2", "kind:same_block", "kind:other_block", "twin1", "twin1"]
 
 
 def gen_run(rng, prop, index, tier):
@@ -72,7 +72,8 @@ def gen_run(rng, prop, index, tier):
         elif r < 0.52:
             ops.append({"op": "remove", "a": a, "k": rng.randint(0, 9), "by": rng.choice(("index", "object", "label"))})
         elif r < 0.64:
-            ops.append({"op": "add_bad", "a": a, "id": ids(1)[0], "kind": rng.choice(BAD_KINDS)})
+            ops.append({"op": "add_bad", "a": a, "id": ids(1)[0], "kind": rng.choice(BAD_KINDS),
+                        "ch": rng.choice((None, None, rng.randint(0, 40)))})
         elif r < 0.80 and cls in ("data3d", "ft", "fpcal", "fpdata"):
             k = rng.randint(0, 4)
             op = {"op": "assign", "a": a, "ids": ids(k)}
